@@ -68,6 +68,23 @@ func init() {
 		"guardBy":     pGuardBy,
 		"freeze":      pFreeze,
 		"held":        pHeld,
+		"concurrently": func(in *Interp, fn *ssa.Function, a []Value) Value {
+			if in.heldAny() {
+				in.pendingConc = append(in.pendingConc, a[0])
+				in.trace = append(in.trace, "concurrent task waits for a lock held by the caller")
+				return nil
+			}
+			in.call(a[0], nil)
+			return nil
+		},
+		"joinConcurrent": func(in *Interp, fn *ssa.Function, a []Value) Value {
+			p := in.pendingConc
+			in.pendingConc = nil
+			for _, f := range p {
+				in.call(f, nil)
+			}
+			return nil
+		},
 		"notHeld":     func(in *Interp, fn *ssa.Function, a []Value) Value { return tNot(pHeld(in, fn, a).(Term)) },
 		"ghostLog":    pGhostLog,
 		"ghostCount":  pGhostCount,
@@ -105,6 +122,9 @@ func init() {
 				if s, ok := it.V.(Slice); ok {
 					return s
 				}
+			}
+			if s, ok := a[0].(Slice); ok { // parts of engine-made blobs (bytes.Buffer concatenations)
+				return s
 			}
 			return Slice{Nil: true}
 		},
